@@ -116,18 +116,20 @@ PROPS["C08"] = dict(
 )
 
 PROPS["C10"] = dict(
-    contracts=["http2"], bounded=["c10", "c11"], level="other", trusted_base=COMMON_TRUSTED,
+    contracts=["http2", "stdlib", "util_request", "connection_request"], bounded=["c10", "c11"], level="other", trusted_base=COMMON_TRUSTED,
     assumptions=["http.client validates the request target (no CTL/SP) and header names/values (no CR/LF except the obs-fold forms) and buffers the head until endheaders (assumed; exercised by the bounded wire check)",
                  "a strict independent request parser defines 'exactly one request'; obs-fold continuation lines and a bare CR before SP/HT inside a value are tolerated (they add no header line)"],
-    not_decided=["HTTPConnection.request / putrequest / putheader are not yet under the VC generator (ghost wire events designed in DESIGN section 5 C10): decided by the bounded wire check only",
+    not_decided=["what http.client writes for a buffered request line / header line (CR/LF validation of target, names and values) is the assumed boundary; only the bounded wire check looks at the bytes",
                  "at connection level the caller passes the request target itself: fragment dropping / percent-encoding are checked at pool and manager level"],
-    explanation="Two parts. (1) PROVED (regex language obligations over the patterns read from the running module): HTTP/2 _is_legal_header_name accepts exactly the lower-case token language (fixed defect D4: a trailing newline was accepted) "
-                "and _is_illegal_header_value rejects exactly values with NUL/CR/LF anywhere or leading/trailing SP/HT. (2) BOUNDED: what reaches sendall() on an in-memory socket, parsed by a strict independent parser, for methods / URLs / "
+    explanation="Three parts. (1) PROVED (regex language obligations over the patterns read from the running module): HTTP/2 _is_legal_header_name accepts exactly the lower-case token language (fixed defect D4: a trailing newline was accepted) "
+                "and _is_illegal_header_value rejects exactly values with NUL/CR/LF anywhere or leading/trailing SP/HT. (1b) PROVED over the real HTTPConnection.putrequest / putheader / request with http.client as the assumed boundary (ghost wire events): "
+                "only RFC 7230 token methods reach http.client and a non-token method raises ValueError before anything is buffered; SKIP_HEADER suppresses a line only for the three automatic headers and raises ValueError for any other; "
+                "request() passes skip_host / skip_accept_encoding exactly when the caller's mapping has a host / accept-encoding key in any letter case, and adds the automatic User-Agent line exactly when the caller has none. (2) BOUNDED: what reaches sendall() on an in-memory socket, parsed by a strict independent parser, for methods / URLs / "
                 "header names / values built from 17 hostile fragments and all their pairs through three entry points; the automatic Host / Accept-Encoding / User-Agent lines for every supply/suppress combination; the percent-encoder for every "
                 "single character and fragment pair.",
-    level_text="Partial proof (HTTP/2 header validity as regular-language obligations) + bounded wire-level contract check through the real request path (complete for the stated fragment alphabet; not a proof).",
+    level_text="Partial proof (HTTP/2 header validity as regular-language obligations; method validation and automatic-header decisions of the real HTTPConnection code against ghost wire events) + bounded wire-level contract check through the real request path (complete for the stated fragment alphabet; not a proof).",
     level_note="Fixed: D4. Bounded part labelled bounded.",
-    technique="contract-based deductive verification (regex language inclusion, z3) + bounded strict parse of the emitted bytes on an in-memory socket",
+    technique="contract-based deductive verification (regex language inclusion; pre/postconditions with ghost wire events on HTTPConnection.putrequest/putheader/request, z3) + bounded strict parse of the emitted bytes on an in-memory socket",
 )
 
 _POOLS = ["stdlib", "util_timeout", "util_retry", "util_url", "connectionpool", "poolmanager_urlopen"]
@@ -215,15 +217,23 @@ PROPS["C20"] = dict(
 )
 
 PROPS["C11"] = dict(
-    contracts=["stdlib", "util_timeout", "util_retry", "util_url", "connectionpool", "util_request"], bounded=["c11"], level="other", trusted_base=COMMON_TRUSTED,
-    assumptions=["connection boundary contracts (see C01)"],
-    not_decided=["the framing decision table of HTTPConnection.request and body_to_chunks are decided by the bounded wire check only (not yet under the VC generator)"],
-    explanation="Two parts. (1) PROVED over the real HTTPConnectionPool.urlopen: every recursion (retry after error, redirect, status retry) passes on the caller's settings unchanged (site obligation settings-carried-through-every-recursion, which includes body_pos handling "
+    contracts=["stdlib", "util_timeout", "util_retry", "util_url", "connectionpool", "util_request", "connection_request"], bounded=["c11"], level="other", trusted_base=COMMON_TRUSTED,
+    assumptions=["connection boundary contracts (see C01)",
+                 "http.client putrequest / putheader / endheaders / send: assumed contracts (each records what it was given in ghost counters, may raise anything, writes only through them)",
+                 "the body object's tell() / seek(): assumed duck contracts (return anything / record the offset, may raise anything, do not touch urllib3's objects)",
+                 "str.encode is a deterministic function of the string; str(int) is a deterministic function with str(0) == '0'; bytes %-formatting: literal text and %b exact, %x an uninterpreted function of the operand"],
+    not_decided=["payload equality (the bytes sent are the body's bytes in order) is proved per chunk (each non-empty chunk is sent exactly once, framed iff chunked), not as an equation over the whole iterable; what a file/iterator yields is outside (lazy generator body chunk_readable is not under contract)",
+                 "the caller's header names are assumed to be str (annotated Mapping[str, str]); wide-item buffers (D20) and one-shot iterators (D8) are known findings of the bounded part"],
+    explanation="Three parts. (0) PROVED over the real code with http.client's putrequest/putheader/endheaders/send as the assumed boundary (ghost counters of framing-header lines and sends): body_to_chunks' classification "
+                "(no body: unframed for GET-like methods else Content-Length 0; bytes/str: Content-Length = byte length / UTF-8 length and the payload is the body; file-like: chunked; a body is never dropped); HTTPConnection.request's framing table for EVERY header mapping "
+                "(str keys), body and method: with no caller framing header exactly one of Content-Length / Transfer-Encoding is written, the terminating chunk is sent iff chunked framing is in force, empty chunks are skipped and every non-empty chunk is sent exactly once, "
+                "as '%x CRLF chunk CRLF' iff chunked; a caller-supplied Content-Length / Transfer-Encoding in any letter case decides the mode and no second framing line is added; set_file_position / rewind_body over a duck-typed body: a recorded position is "
+                "never replaced, a re-send returns only after seeking to exactly that position, a failed tell()/seek() surfaces as UnrewindableBodyError - never a silent skip. (1) PROVED over the real HTTPConnectionPool.urlopen: every recursion (retry after error, redirect, status retry) passes on the caller's settings unchanged (site obligation settings-carried-through-every-recursion, which includes body_pos handling "
                 "being threaded through the same calls). (2) BOUNDED: 10 body kinds x sizes around the block size x 6 methods x chunked flag: exactly one framing header and framed payload == body bytes; 9 body kinds x 9 attempt histories: every re-sent body "
                 "byte-identical or UnrewindableBodyError.",
-    level_text="Bounded wire-level contract check (exhaustive over the stated body kinds / sizes / histories) + the recursion-settings site obligation of urlopen; not a proof of the framing table.",
+    level_text="Deductive proof of the framing decision table and of the body-position functions over the real code (http.client and the body object's tell/seek at assumed contracts) + bounded wire-level contract check (exhaustive over the stated body kinds / sizes / histories) for the bytes themselves and the multi-attempt histories.",
     level_note="Known findings D8 (one-shot iterators re-sent empty) and D20 (chunked + wide-item buffer) reported as KNOWN-FINDING. Fixed: D21.",
-    technique="bounded strict parse of the emitted bytes on an in-memory socket + one deductive site obligation on the real urlopen",
+    technique="contract-based deductive verification (pre/postconditions, loop invariants and per-iteration effects with ghost wire events on HTTPConnection.request/putheader, body_to_chunks, set_file_position, rewind_body; z3) + bounded strict parse of the emitted bytes on an in-memory socket",
 )
 
 _TLS_ASSUME = ["simulated TLS handshake = the assumed OpenSSL contract (fails iff verify_mode != CERT_NONE and the chain is untrusted, or check_hostname is on and the server name is not among the certificate names); real handshakes are outside this family",
